@@ -685,6 +685,37 @@ def conditions_at(g: CFG, func_node: ast.AST, target: ast.AST, pm: dict[int, ast
     return out
 
 
+def some_path_avoids(g: CFG, func_node: ast.AST, target: ast.AST, fact, pm: dict[int, ast.AST] | None = None) -> bool:
+    """True when `target` is reachable from the entry along a path on which NO branch edge establishes `fact`
+    (a predicate over one normalised conjunct of the edge's condition).  The disjunctive counterpart of conditions_at:
+    `if a: (if not f: return)  else: (if not f: return)` establishes f on every path although no single test dominates."""
+    nodes = {n.id for n in cfg_node_of(g, func_node, target, pm)}
+    if not nodes:
+        return False
+    blocked: set[tuple[int, str]] = set()
+    for t in g.nodes:
+        if t.kind != "test" or t.ast is None:
+            continue
+        for lab in ("true", "false"):
+            cond = t.ast if lab == "true" else negate(t.ast)
+            if any(fact(c) for c in _conjuncts(cond)):
+                blocked.add((t.id, lab))
+    seen: set[int] = set()
+    stack = [g.entry]
+    while stack:
+        x = stack.pop()
+        if x in seen:
+            continue
+        seen.add(x)
+        if x in nodes:
+            return True
+        for s_, l_ in g.succ[x]:
+            if (x, l_) in blocked:
+                continue
+            stack.append(s_)
+    return False
+
+
 def read_copy_write_sites(func_node: ast.AST) -> list[tuple[ast.AST, str, str]]:
     """`tmp = <copy of self.X[k] / self.X.get(k, ..)>; ...; self.X[k] = tmp` (or the same in one expression): the element of
     a shared container is replaced by a value computed from a copy of its previous content.  Without a lock around both steps
